@@ -913,6 +913,8 @@ class Interp:
         if self.depth > 40:
             self.unsupported(f"unfolding depth exceeded at {fi.key}", node)
         fr = Frame(fi.module, {}, parent_frame, fi)
+        if fi.key == self.under_proof and self.depth == 0:
+            self.root_frame = fr
         self.bind_args(fi.node.args, args, kwargs, fr, fi.key, defaults_frame=Frame(fi.module, {}, parent_frame))
         if "contextmanager" in fi.decorators:
             return SpecFn(None, desc="contextmanager:" + fi.key, meta={"cm": (fi, fr)})
